@@ -1226,6 +1226,15 @@ fn random_programs(ctx: &mut Ctx) {
 }
 
 pub fn run(ctx: &mut Ctx) {
+    if ctx.slow() {
+        // Miri slice: a thinned-out storage-boundary stream (ArrayVec push/pop/clear at and
+        // beyond capacity is the unsafe code being interpreted) plus a few random programs
+        ctx.slow_stride = 60;
+        capacity(ctx);
+        ctx.slow_stride = 1;
+        random_programs(ctx);
+        return;
+    }
     corpus::run(ctx);
     raw_cases(ctx);
     capacity(ctx);
